@@ -185,6 +185,7 @@ func (s *solo) onCall(m *rpcbench.WireMsg, t int64) {
 		}
 		if !ta.returned {
 			ta.queued = append(ta.queued, a)
+			ta.pipedBeforeRet = append(ta.pipedBeforeRet, a.path)
 			s.count("conn_pipelined_on_unreturned", 1)
 		} else {
 			s.count("conn_pipelined_on_returned", 1)
@@ -257,9 +258,76 @@ func (s *solo) resolvePipelined(a *peerA, ta *peerA) {
 	case "senderHosted", "senderPromise":
 		s.deliverToPeerCap(spec.pcaps[idx], a)
 	case "receiverHosted":
+		if s.holdAns != nil && s.holdAns == ta {
+			// a slow proxy: forwarded when the Disembargo for this path
+			// arrives, at the latest when the macro ends
+			s.heldFwd = append(s.heldFwd, heldForward{a, spec.cexps[idx]})
+			s.count("forwards_held_back", 1)
+			return
+		}
 		s.forwardToConn(a, spec.cexps[idx])
 	default:
 		s.peerReturnException(a, "null capability")
+	}
+}
+
+// flushHeld forwards the held looped-back calls pipelined on ta (path ==
+// nil: all of them, otherwise those on that path) in arrival order.
+func (s *solo) flushHeld(ta *peerA, path []int) {
+	var keep []heldForward
+	held := s.heldFwd
+	s.heldFwd = nil
+	for _, h := range held {
+		if h.a.onAns == ta && (path == nil || pathStr(h.a.path) == pathStr(path)) {
+			s.forwardToConn(h.a, h.ce)
+		} else {
+			keep = append(keep, h)
+		}
+	}
+	s.heldFwd = append(keep, s.heldFwd...)
+}
+
+// checkDisembargoes: the Conn has finished question a (its Finish follows
+// the Disembargoes it sent while handling the Return).  Every result path it
+// had pipelined calls on before the Return and that the Return resolved to a
+// capability hosted by the Conn itself must have been disembargoed (one
+// Disembargo per cap-table entry): otherwise calls made on the resolved
+// capability are delivered directly and overtake the pipelined calls that
+// are still being looped back.
+func (s *solo) checkDisembargoes(a *peerA) {
+	if a.boot || a.app == nil || a.app.canceled || a.retAfterFinish || s.closed || s.aborted {
+		return
+	}
+	if a.ret == nil || a.ret.RetKind != "results" || a.ret.Payload == nil {
+		return
+	}
+	p := a.ret.Payload
+	have := map[int]bool{}
+	for _, path := range a.disPaths {
+		if i := p.SlotCapIdx(path); i >= 0 {
+			have[i] = true
+		}
+	}
+	need := map[int][]int{}
+	var order []int
+	for _, path := range a.pipedBeforeRet {
+		i := p.SlotCapIdx(path)
+		if i < 0 || p.Caps[i].Kind != "receiverHosted" {
+			continue
+		}
+		if _, ok := need[i]; !ok {
+			need[i] = path
+			order = append(order, i)
+		}
+	}
+	for _, i := range order {
+		s.count("disembargo_targets_checked", 1)
+		if !have[i] {
+			s.violate("C06/disembargo-missing", fmt.Sprintf("question %d (uid=%x): calls were pipelined on result path %s before the Return, the Return resolved it to receiverHosted:%d (hosted by the Conn), but no sender-loopback Disembargo for it preceded the Finish (%d of %d such paths disembargoed): later calls on that capability are not held back", a.id, a.uid, pathStr(need[i]), p.Caps[i].ID, len(have), len(order)), s.log.Tail(40))
+		}
+	}
+	if len(order) >= 2 {
+		s.count("disembargo_sibling_targets_checked", 1)
 	}
 }
 
@@ -448,6 +516,7 @@ func (s *solo) onFinish(m *rpcbench.WireMsg, t int64) {
 		s.count("finish_before_return", 1)
 		return
 	}
+	s.checkDisembargoes(a)
 	if a.boot && m.ReleaseResultCaps {
 		// the bootstrap question was canceled: its clients are broken
 		for _, b := range s.appBoots {
@@ -535,8 +604,11 @@ func (s *solo) onDisembargo(m *rpcbench.WireMsg, t int64) {
 			s.violate("C06/disembargo-bad-target", fmt.Sprintf("sender-loopback Disembargo on answer %d%s which is not a capability hosted by the Conn", m.Target.QID, m.Target.Path()), s.log.Tail(30))
 			return
 		}
+		ta.disPaths = append(ta.disPaths, m.Target.PathOps())
 		// every pipelined call on that path received so far was forwarded
-		// already (pump is sequential): reply
+		// already (pump is sequential; what the proxy held back goes out
+		// now): reply
+		s.flushHeld(ta, m.Target.PathOps())
 		id, capID := m.ID, d.ID
 		s.peerSend(func(msg rpccp.Message) error {
 			dm, err := msg.NewDisembargo()
